@@ -1813,6 +1813,8 @@ func (n *node) unregisterProcess(p *process, reason error) {
 	// it could be a consumer of the local events
 	n.eventConsumerGone(linkTargets)
 	n.eventConsumerGone(monitorTargets)
+	// ... or of the remote ones
+	n.remoteEventConsumerGone(p.pid, linkTargets, monitorTargets)
 
 	if p.application != system.Name {
 		// do not count system app processes
@@ -1885,6 +1887,42 @@ func (n *node) eventConsumerGone(targets []any) {
 		}
 		n.eventConsumersGone(ev, 1)
 	}
+}
+
+// remoteEventConsumerGone tells the nodes of the remote events the terminated
+// process was subscribed to that this consumer is gone. They keep the relation
+// and count the consumers of their events (to notify the producer when the last
+// one has left) the same way as this node does for the local events; nothing
+// else lets them know while the connection stays.
+func (n *node) remoteEventConsumerGone(pid gen.PID, linkTargets []any, monitorTargets []any) {
+	var links, monitors []gen.Event
+	for _, target := range linkTargets {
+		if ev, ok := target.(gen.Event); ok && ev.Node != n.name {
+			links = append(links, ev)
+		}
+	}
+	for _, target := range monitorTargets {
+		if ev, ok := target.(gen.Event); ok && ev.Node != n.name {
+			monitors = append(monitors, ev)
+		}
+	}
+	if len(links) == 0 && len(monitors) == 0 {
+		return
+	}
+	// these are requests the remote node answers. do not make
+	// the termination of the process wait for it
+	go func() {
+		for _, ev := range links {
+			if connection, err := n.network.Connection(ev.Node); err == nil {
+				connection.UnlinkEvent(pid, ev)
+			}
+		}
+		for _, ev := range monitors {
+			if connection, err := n.network.Connection(ev.Node); err == nil {
+				connection.DemonitorEvent(pid, ev)
+			}
+		}
+	}()
 }
 
 func (n *node) eventConsumersGone(ev gen.Event, count int32) {
